@@ -40,7 +40,7 @@ pub fn random_surface(t: &mut Tape, avoid_paren_do: bool) -> SurfacePlan {
     p.parens = if avoid_paren_do { choices(t, 200, 2) } else { choices(t, 200, 3) };
     p.comments = choices(t, 120, 2);
     p.blanks = choices(t, 120, 2);
-    p.breaks = choices(t, 120, 3);
+    p.breaks = choices(t, 240, 3);
     p.indent = t.below(10) as u8;
     p.crlf = t.chance(1, 8);
     p
@@ -116,6 +116,9 @@ impl Check for C14 {
         }
         if s.breaks_added > 0 {
             labels.add("line-breaks-in-brackets");
+            if s.op_breaks > 0 {
+                labels.add("line-break-before-operator-in-brackets");
+            }
         }
         if case.b.crlf {
             labels.add("crlf");
@@ -183,7 +186,7 @@ impl Check for C14 {
         "cases: one random well-typed GenAST program rendered twice: default surface plan vs a random plan choosing, per site, the call \
          form (f(a, b) / f' a, b where the greedy argument list cannot swallow anything or in parentheses / a -> f(b) for plain-name \
          callees), `ret e` vs trailing expression, `loop do` vs `loop true do`, redundant parentheses, comment lines and trailing \
-         comments, blank lines, indentation (0-8 spaces or tab), line breaks after commas inside () [] {} and call parentheses, CRLF. \
+         comments, blank lines, indentation (0-8 spaces or tab), line breaks after commas and before binary operators / arrows inside () [] {} and call parentheses (also inside the argument list of a parenthesised prime call), CRLF. \
          Oracle: both accepted and the emitted Lua is byte-identical after replacing the number in `Reached unreachable code on line N`. \
          non-trivial = >= 3 differing sites including a nested sugar (prime/arrow call inside another sugared call) or a sugared call \
          together with a line break inside brackets; distinct by case hash"
